@@ -1,6 +1,9 @@
 package main
 
 import (
+	"runtime/debug"
+	"sync/atomic"
+	"runtime/pprof"
 	"encoding/json"
 	"flag"
 	"fmt"
@@ -33,34 +36,38 @@ type job struct {
 	query  string
 	light  string
 	light2 string
+	tiny   string
 	sgIdx  int
 	sg     subgoal
 	alts   []job // alternative way to discharge this subgoal (all must be unsat)
 	ex     *Exec
 	lazy   bool
+	mu     sync.Mutex
 }
 
-var buildMu sync.Mutex
 
 // render builds one of the three query variants of a lazy job.
 var buildNs int64
+var statTinyN, statTinyNs, statLightN, statLightNs, statLight2N, statLight2Ns, statFullN, statFullNs int64
 
 func (j *job) render(kind string) string {
-	buildMu.Lock()
+	j.mu.Lock()
 	t0 := time.Now()
-	defer func() { buildNs += int64(time.Since(t0)); buildMu.Unlock() }()
+	defer func() { atomic.AddInt64(&buildNs, int64(time.Since(t0))); j.mu.Unlock() }()
 	switch kind {
+	case "tiny":
+		if j.tiny == "" {
+			j.tiny = j.ex.buildQueryMode(j.res.O, j.sg, "", nil, true, false, true)
+		}
+		return j.tiny
 	case "light":
 		if j.light == "" {
-			pairInstances = false
 			j.light = j.ex.buildQueryMode(j.res.O, j.sg, "", nil, true)
 		}
 		return j.light
 	case "light2":
 		if j.light2 == "" {
-			pairInstances = true
-			j.light2 = j.ex.buildQueryMode(j.res.O, j.sg, "", nil, true)
-			pairInstances = false
+			j.light2 = j.ex.buildQueryMode(j.res.O, j.sg, "", nil, true, true)
 			if j.light2 == j.light {
 				j.light2 = "-"
 			}
@@ -71,7 +78,6 @@ func (j *job) render(kind string) string {
 		return j.light2
 	default:
 		if j.query == "" {
-			pairInstances = false
 			j.query = j.ex.buildQuery(j.res.O, j.sg, "", nil)
 		}
 		return j.query
@@ -99,6 +105,13 @@ func main() {
 	timeout := flag.Int("timeout", 0, "solver timeout seconds (default 10 quick / 60 thorough)")
 	outdir := flag.String("outdir", "", "where evidence/ and replays/ are written (default: the verif root)")
 	flag.Parse()
+	debug.SetGCPercent(400)
+	if pf := os.Getenv("VERIF_PROF"); pf != "" {
+		if f, err := os.Create(pf); err == nil {
+			pprof.StartCPUProfile(f)
+			defer pprof.StopCPUProfile()
+		}
+	}
 	outRoot = *outdir
 	if outRoot == "" {
 		outRoot = *verif
@@ -107,6 +120,7 @@ func main() {
 	initScratch()
 	code := run(*repo, *verif, *prop, *tier, *only, *dump, *list, *verbose, *timeout, start)
 	cleanupScratch()
+	pprof.StopCPUProfile()
 	os.Exit(code)
 }
 
@@ -243,7 +257,7 @@ func run(repo, verif, prop, tier, only, dump string, list, verbose bool, timeout
 	// solve in parallel
 	var mu sync.Mutex
 	var wg sync.WaitGroup
-	sem := make(chan struct{}, 5) // each job races 3 solvers
+	sem := make(chan struct{}, 7) // each job races 2-3 solvers
 	var solverMs int64
 	for i := range jobs {
 		j := &jobs[i]
@@ -258,16 +272,27 @@ func run(repo, verif, prop, tier, only, dump string, list, verbose bool, timeout
 			}
 			var sr SolverResult
 			if j.lazy {
-				sr = Solve(j.render("light"), 8, false)
+				t0 := time.Now()
+				sr = SolveN(j.render("tiny"), 4, false, 1)
+				j.tiny = ""
+				atomic.AddInt64(&statTinyN, 1)
+				atomic.AddInt64(&statTinyNs, int64(time.Since(t0)))
 				if sr.Status == "unsat" {
-					sr.Solver += "(inst)"
+					sr.Solver += "(inst0)"
 				}
 				if sr.Status != "unsat" {
-					if l2 := j.render("light2"); l2 != "" {
-						sr = Solve(l2, 15, false)
-						if sr.Status == "unsat" {
-							sr.Solver += "(inst2)"
-						}
+					t2 := time.Now()
+					l2 := j.render("light2")
+					tag := "(inst2)"
+					if l2 == "" {
+						l2 = j.render("light")
+						tag = "(inst)"
+					}
+					sr = SolveN(l2, 15, false, 2)
+					atomic.AddInt64(&statLight2N, 1)
+					atomic.AddInt64(&statLight2Ns, int64(time.Since(t2)))
+					if sr.Status == "unsat" {
+						sr.Solver += tag
 					}
 				}
 				if sr.Status != "unsat" {
@@ -275,7 +300,13 @@ func run(repo, verif, prop, tier, only, dump string, list, verbose bool, timeout
 				}
 			}
 			if sr.Status != "unsat" {
+				t3 := time.Now()
 				sr = Solve(j.query, to, tier == "thorough" && !j.res.O.IsCover)
+				if os.Getenv("VERIF_STAGES") != "" && !j.res.O.IsCover {
+					fmt.Fprintf(os.Stderr, "STAGE full %s subgoal %d %s %dms\n", j.res.O.Name, j.sgIdx, sr.Status, time.Since(t3).Milliseconds())
+				}
+				atomic.AddInt64(&statFullN, 1)
+				atomic.AddInt64(&statFullNs, int64(time.Since(t3)))
 			}
 			if sr.Status != "unsat" && len(j.alts) > 0 {
 				// prove the content equality from its definition instead
@@ -283,7 +314,7 @@ func run(repo, verif, prop, tier, only, dump string, list, verbose bool, timeout
 				var last SolverResult
 				for ai := range j.alts {
 					a := &j.alts[ai]
-					ar := Solve(a.render("light"), 8, false)
+					ar := SolveN(a.render("light"), 8, false, 2)
 					if ar.Status != "unsat" {
 						ar = Solve(a.render("full"), to, false)
 					}
@@ -534,6 +565,7 @@ func report(V *Verifier, verif, repo, prop, tier string, start time.Time, result
 	os.WriteFile(filepath.Join(outRoot, "evidence", prop+".json"), data, 0o644)
 	if os.Getenv("VERIF_PROFILE") != "" {
 		fmt.Fprintf(os.Stderr, "profile: query rendering %.1fs (serialised), solver time %.1fs (summed)\n", float64(buildNs)/1e9, float64(solverMs)/1000)
+		fmt.Fprintf(os.Stderr, "profile: tiny %d runs %.1fs; light %d runs %.1fs; light2 %d runs %.1fs; full %d runs %.1fs\n", statTinyN, float64(statTinyNs)/1e9, statLightN, float64(statLightNs)/1e9, statLight2N, float64(statLight2Ns)/1e9, statFullN, float64(statFullNs)/1e9)
 	}
 	fmt.Printf("property=%s functions=%d obligations=%d discharged=%d covers=%d/%d violations=%d wall=%.1fs\n", prop, len(fuc), nObl, nDis, nCoverOK, nCover, violations, time.Since(start).Seconds())
 	if violations > 0 {
